@@ -341,6 +341,19 @@ ADDED7 = {
     "C19": "Failed keep-alives are placed on and around the request that carries sequence byte 255 of the protocol handler (single failures and runs of six).",
     "C20": "Coroutine calls submitted just before force_stop() while the owner's loop is busy (queued, not yet begun) must also get an outcome.",
 }
+# round 8 and the property-preserving changes
+ADDED8 = {
+    "C01": "The number of transmissions per payload is the tree's configured value.",
+    "C03": "The ACK / NAK frames the host writes by itself in answer to received DATA frames (26 in-sequence frames, a refused frame at each of 17 positions) are compared bit for bit with the independent encoder.",
+    "C04": "The receiver is also exercised while one host DATA frame is in flight, with the peer's ACK / NAK / DATA frames referring to it arriving in one read (every ordered pair, selected triples, 8 start states).",
+    "C07": "Entries the golden snapshot does not know (commands or versions added later) are not differences; a reverse-table entry naming a command foreign to the version is.",
+    "C09": "The set of supported versions is read from the tree. Further enumerated: the RSTACK answering the second reset is lost and another task issues a command right after the failed step; one host frame lost k = 1..attempts-1 times in a row (bring-up must succeed).",
+    "C14": "An earlier restore + read-back of another backup (same or another network key, other counters and devices) may precede through the same application object.",
+    "C18": "After each of seven library helpers has run against an NCP answering 0x00 / 0x93 / 0x70 (every version) the whole 2 x 256 conversion table is judged again.",
+    "C19": "While an unanswered keep-alive waits, a callback stamped with its own sequence byte may arrive (still a failed feed).",
+}
+CFG_NOTE = {pid: " Configured values named by the statement (command / reset / operation timeouts, attempts, tolerated failures) are read from the tree under test (vlib/cfg.py)."
+            for pid in ("C01", "C05", "C06", "C08", "C09", "C10", "C11", "C12", "C17", "C19")}
 RUNNER_NOTE = " In every run each fourth worker shard executes with debug logging switched on (into a null handler)."
 
 
@@ -356,6 +369,9 @@ def main():
             text = text + " " + ADDED[pid]
         if pid in ADDED7:
             text = text + " " + ADDED7[pid]
+        if pid in ADDED8:
+            text = text + " " + ADDED8[pid]
+        note = note + CFG_NOTE.get(pid, "")
         note = note + RUNNER_NOTE
         checks.append({
             "property_id": pid,
